@@ -38,3 +38,38 @@ Theorem C11_delete_retires_exactly_once_partial : forall k fuel t lo hi res ret,
   (forall x, In x (bt_ids t) -> In x ret \/ In x (dres_ids res)).
 Proof. exact bt_delete_ids. Qed.
 Print Assumptions C11_delete_retires_exactly_once_partial.
+
+(** ** Store and system level (AccountingProofs): every id taken from the counter is exactly one of reachable,
+    released (retired) once, or never materialised; nothing released is still reachable; after destroy nothing is
+    reachable.  [sys_allocs] = node ids and out-of-line value ids reachable from the outer tree and all user trees;
+    [released_all] = everything handed to the gc or released at once (delete_storage, destroy), in order. *)
+From Yk Require Import KeyProofs TreeDefs StoreProofs SysDefs SysProofs AccountingProofs.
+
+Theorem C11_no_leak_no_double_release : forall ops, Forall op_bytes ops ->
+  let s' := fst (exec_all sys_init ops) in
+  SAcc s' /\ NoDup (sys_allocs s' ++ released_all sys_init ops) /\
+  (forall i, In i (sys_allocs s' ++ released_all sys_init ops) -> 1 <= i < sy_ctr s').
+Proof. exact sys_history_accounting. Qed.
+Print Assumptions C11_no_leak_no_double_release.
+
+(** one step: what is reachable afterwards together with what the operation released is exactly what was reachable
+    before plus fresh ids from the counter *)
+Theorem C11_step_accounting : forall s o, SAcc s -> op_bytes o -> exec_post s o.
+Proof. exact exec_accounting. Qed.
+Print Assumptions C11_step_accounting.
+
+Theorem C11_destroy_zero_balance : forall ops, Forall op_bytes ops ->
+  sys_allocs (fst (exec_all sys_init (ops ++ [ODestroy]))) = [].
+Proof. exact sys_destroy_zero_balance. Qed.
+Print Assumptions C11_destroy_zero_balance.
+
+(** a failed unique insert (and an inline value) leaves its speculatively taken value id neither reachable nor retired,
+    and changes nothing else *)
+Theorem C11_failed_put_releases : forall c tr k bs al u il tr' po c',
+  WF_store c tr -> alloc_ok c tr -> bytes k ->
+  put tr k (mk_value c bs al il) u (c + 1) = Some (tr', po, c') ->
+  (il = false /\ po_status po = St_OK -> In c (store_allocs tr')) /\
+  (il = true \/ po_status po <> St_OK -> ~ In c (store_allocs tr' ++ po_retired po)) /\
+  (po_status po <> St_OK -> tr' = tr /\ po_retired po = [] /\ c' = c + 1).
+Proof. exact put_value_fate. Qed.
+Print Assumptions C11_failed_put_releases.
